@@ -224,6 +224,16 @@ def gen_join(tier, rng):
             ops.append(other(rng, (s1, s2)[k], lay[k]))
             lay.append(lay[k])
         yield {"fn": fn, "ops": ops, "layouts": lay, "kw": kw, "via": rng.choice(NP2)}
+    # a sequence holding ONE operand (joins accept it: the result is that operand, possibly with axes added)
+    for fn in JOIN:
+        for s1 in (SHAPES if tier == "thorough" else rng.sample(SHAPES, min(4, len(SHAPES)))):
+            for kw in [{}] + ([{"axis": 0}] if fn in JOIN[:2] and len(s1) else []):
+                try:
+                    getattr(numpy, fn)([numpy.empty(s1, object)], **kw)
+                except Exception:
+                    continue
+                lay = [rng.choice(LAYOUTS)]
+                yield {"fn": fn, "ops": [rpoly(rng, s1, lay[0], names=rng.choice(NAMESETS))], "layouts": lay, "kw": kw, "via": rng.choice(NP2)}
 
 
 def gen_broadcast(tier, rng):
@@ -277,7 +287,7 @@ def several(inp):
 
 DIFFERENT = "operands over different indeterminates and term sets, sometimes a plain int array; "
 check("C09", "join.elements", gen_join, functions=tuple(f"numpoly.{f}" for f in JOIN),
-      note=BOUNDS + "concatenate/stack (every axis incl. None and default) and hstack/vstack/dstack of 2-3 operands whose shapes numpy accepts, "
+      note=BOUNDS + "concatenate/stack (every axis incl. None and default) and hstack/vstack/dstack of 1-3 operands whose shapes numpy accepts, "
       + DIFFERENT + "result names = union, dtype = numpy.result_type; thorough exhaustive over shape pairs x axis")(several)
 check("C09", "broadcast_arrays.elements", gen_broadcast, functions=("numpoly.broadcast_arrays",),
       note=BOUNDS + "1-3 operands (3 operands: <=2 dimensions) of every broadcastable shape combination, different indeterminates; "
